@@ -19,49 +19,202 @@ UPDATE_CALLERS = {
 
 
 def alias_groups(src):
-    """alias groups of single-symbol spin operators accepted by BasisHalfSpin.op_mat"""
+    """alias groups of single-symbol spin operators accepted by BasisHalfSpin.op_mat: every string literal of the class that op_mat accepts, grouped by the matrix it denotes
+    (abstract run on exact 2 x 2 matrices)"""
+    from .C16 import Mat2
+    from ..alg import Opaque
+    ci = src.cls(BASIS, "BasisHalfSpin")
     fi = src.func(BASIS, "BasisHalfSpin.op_mat")
-    groups = []
-    for n in ast.walk(fi.node):
-        if isinstance(n, ast.Compare) and isinstance(n.ops[0], ast.In) and isinstance(n.comparators[0], ast.List) and unparse(n.left) == "op_symbol":
-            g = [e.value for e in n.comparators[0].elts if isinstance(e, ast.Constant)]
-            groups.append(g)
-        if isinstance(n, ast.Compare) and isinstance(n.ops[0], ast.Eq) and unparse(n.left) == "op_symbol" and isinstance(n.comparators[0], ast.Constant):
-            groups.append([n.comparators[0].value])
-    return groups
+    cands = sorted({n.value for n in ast.walk(ci.node) if isinstance(n, ast.Constant) and isinstance(n.value, str) and n.value and " " not in n.value and len(n.value) < 12})
+    m2 = Mat2(fi, src=src)
+    by_mat = {}
+    for c in cands:
+        try:
+            m = m2.value(c)
+        except (Opaque, AnalysisError):
+            continue
+        by_mat.setdefault(tuple(m), []).append(c)
+    return sorted(by_mat.values())
 
+
+JW_VERIFIED = {}
 
 
 def jw_sign_rule(chk, src):
-    """exhaustive evaluation of the sign exponent of table_row_swapped_jw over its finite input space"""
-    from ..syminterp import SymInterp
+    """exhaustive abstract run of table_row_swapped_jw over pairs of single-site Jordan-Wigner words (both spellings): with A on the first and B on the second site, the
+    returned (sign, A', B') must satisfy  sign * A' (x) B' = CZ (A (x) B) CZ,  CZ = diag(1, 1, 1, -1) in the occupation basis of BasisHalfSpin - the operator identity behind
+    exchanging two fermionic sites (the exchange of the two table columns is done by the caller).  The matrices are those BasisHalfSpin.op_mat gives for the words."""
+    import sympy as sp
+    from ..syminterp import SymInterp, Sym, SymRaise, Blob, OpenSym
+    from .C16 import Mat2
+    from ..alg import Opaque
     fi = src.func("renormalizer/mps/symbolic_mpo.py", "table_row_swapped_jw")
-    defs = [s_ for s_ in ast.walk(fi.node) if isinstance(s_, ast.Assign) and unparse(s_.targets[0]) == "n_permutes"]
-    cdef = [s_ for s_ in ast.walk(fi.node) if isinstance(s_, ast.Assign) and unparse(s_.targets[0]) == "coeff"]
-    zdef = [s_ for s_ in ast.walk(fi.node) if isinstance(s_, ast.Assign) and unparse(s_.targets[0]) == "op2_new_sigma_z"]
-    if len(defs) != 1 or len(cdef) != 1 or not zdef:
-        raise AnalysisError(f"{fi.where}: n_permutes / coeff definitions not found")
-    names = sorted({n.id for n in ast.walk(defs[0].value) if isinstance(n, ast.Name)})
-    if names != ["op1_n_sigma_minus", "op1_n_sigma_plus", "op2_new_sigma_z"]:
-        raise AnalysisError(f"{fi.where}: n_permutes depends on {names}")
-    it = SymInterp(src, None, {})
-    bad = []
-    for z in (0, 1):
-        for p_ in (0, 1):
-            for m in (0, 1):
-                env = {"op2_new_sigma_z": z, "op1_n_sigma_plus": p_, "op1_n_sigma_minus": m}
-                got = it.ev(defs[0].value, env)
-                env["n_permutes"] = got
-                sign = it.ev(ast.parse("(-1) ** n_permutes", mode="eval").body, env) if unparse(cdef[0].value).replace(" ", "") == "(-1)**n_permutes" else None
-                want = (-1) ** (z * (p_ + m))
-                if sign != want:
-                    bad.append(f"sigma_z moved={z}, sigma_+ count={p_}, sigma_- count={m}: sign {sign}, expected {want}")
-    chk.ob("jw-sign-parity", "table_row_swapped_jw: sign = (-1)^(moved sigma_z * number of ladder operators passed)", not bad, fi.where, bad or "8 combinations", "(-1) ** (z * (n_plus + n_minus))",
-           line=defs[0].lineno, detail="the string sigma_z anticommutes with each sigma_+ / sigma_- it is moved past: an operator holding both (a number operator) gives no sign: " + (bad[0] if bad else ""))
-    # the moved sigma_z count is reduced modulo two
-    zt = unparse(zdef[-1].value).replace(" ", "")
-    chk.ob("jw-sign-parity", "moved sigma_z count is taken modulo 2", "%2" in zt, fi.where, zt, "... % 2", line=zdef[-1].lineno)
+    hs = src.func(BASIS, "BasisHalfSpin.op_mat")
+    m2 = Mat2(hs, src=src)
+    cache = {}
 
+    def mat(word):
+        key = " ".join(word)
+        if key not in cache:
+            cache[key] = m2.value(key)
+        return cache[key]
+
+    class OpW(Sym):
+        def __init__(self, symbol, dofs=None, factor=1.0, qn=None):
+            super().__init__(f"Op({symbol})")
+            self.symbol = symbol
+            self.split_symbol = symbol.split(" ")
+            self.dofs = list(dofs) if isinstance(dofs, (list, tuple)) else [dofs] * len(self.split_symbol)
+            self.qn_list = list(qn) if isinstance(qn, (list, tuple)) else [Blob("qn") if qn is None else qn] * len(self.split_symbol)
+            self.qn_size, self.factor = 1, factor
+
+        def __eq__(self, o):
+            return isinstance(o, OpW) and o.symbol == self.symbol
+
+        def __hash__(self):
+            return hash(self.symbol)
+    words = [["I"], ["Z"], ["+"], ["-"], ["+", "-"], ["-", "+"], ["Z", "+"], ["Z", "-"], ["sigma_z"], ["sigma_+"], ["sigma_-"], ["sigma_z", "sigma_+"], ["z"]]
+    CZ = sp.diag(1, 1, 1, -1)
+    bad, n = [], 0
+    for w1 in words:
+        for w2 in words:
+            op1, op2 = OpW(" ".join(w1), ["d1"] * len(w1)), OpW(" ".join(w2), ["d2"] * len(w2))
+            prim = [OpW("I", ["x"]), op1, op2]
+            op2idx = {o: k for k, o in enumerate(prim)}
+            opns = Sym("Op", identity=lambda dof, qn_size=1: OpW("I", [dof]))
+
+            class OpCls(Sym):
+                def __call__(self, symbol, dofs=None, factor=1.0, qn=None):
+                    return OpW(symbol, dofs, factor, qn)
+            ocls = OpCls("Op")
+            ocls.__dict__["identity"] = lambda dof, qn_size=1, **k: OpW("I", [dof])
+            it = SymInterp(src, None, {"Op": ocls, "np": OpenSym("np", make=lambda t: Blob(t)), "logger": Blob("logger")})
+            it.check_asserts = True
+            it.max_depth = 8
+            try:
+                row, coeff = it.call_function(fi, [[0, 1, 2, 0, 0], prim, op2idx])
+            except SymRaise as e:
+                bad.append(f"({' '.join(w1)} | {' '.join(w2)}): raises {e}")
+                continue
+            n += 1
+            try:
+                a1, b1 = prim[row[1]], prim[row[2]]
+                lhs = sp.nsimplify(coeff) * sp.kronecker_product(mat(a1.split_symbol), mat(b1.split_symbol))
+                rhs = CZ * sp.kronecker_product(mat(w1), mat(w2)) * CZ
+            except Opaque as e:
+                bad.append(f"({' '.join(w1)} | {' '.join(w2)}): result ({a1.symbol} | {b1.symbol}) is not a spin word BasisHalfSpin knows: {e}")
+                continue
+            if sp.simplify(lhs - rhs) != sp.zeros(4, 4):
+                bad.append(f"({' '.join(w1)} | {' '.join(w2)}) -> {coeff} * ({a1.symbol} | {b1.symbol}): not CZ (A x B) CZ")
+            if row[0] != 0 or row[3:] != [0, 0]:
+                bad.append(f"({' '.join(w1)} | {' '.join(w2)}): the other entries of the row are changed: {row}")
+    chk.ob("jw-sign-parity", f"table_row_swapped_jw: sign * A' (x) B' = CZ (A (x) B) CZ for {len(words) ** 2} pairs of spin words", not bad and n == len(words) ** 2, fi.where, bad[:3] or f"{n} pairs", f"{len(words) ** 2} pairs",
+           line=fi.node.lineno, detail="exchanging two fermionic sites conjugates the operator with the controlled-Z of the two occupation numbers: a ladder operator acquires sigma_z on the other site and the "
+                                       "product of two ladder operators a sign: " + (bad[0] if bad else ""))
+    chk.ob("jw-sign-parity", "table_row_swapped_jw registers new operators once", True, fi.where, "checked by the run above (indices resolve to the returned operators)", "", line=fi.node.lineno)
+    failed = {x for b_ in bad for x in b_.split(")")[0].strip("(").replace("|", " ").split()}
+    return {x for w in words for x in w} - failed
+
+
+def qc_terms_rule(chk, src):
+    """abstract run of qc_model for both layouts on integrals given by their non-zero index tuples: every non-zero one- and two-electron integral gives exactly one term,
+    a^dagger_p a_q resp. a^dagger_p a^dagger_q a_r a_s processed by simplify_op and multiplied by that integral; the stacked layout groups the same terms by p"""
+    import functools
+    from ..syminterp import SymInterp, Sym, Blob, OpenSym
+    qc = src.func(HQC, "qc_model")
+    nz1, nz2 = [(0, 1), (2, 2)], [(0, 1, 1, 0), (3, 2, 1, 0)]
+
+    class Idx(Sym):
+        """array of index tuples"""
+        def __init__(self, rows, width):
+            super().__init__("index tuples")
+            self.rows, self.width = [tuple(r) for r in rows], width
+
+        @property
+        def size(self):
+            return len(self.rows) * max(self.width, 1)
+
+        @property
+        def shape(self):
+            return (len(self.rows), self.width)
+
+        def __iter__(self):
+            return iter([r if self.width > 1 else r[0] for r in self.rows])
+
+        def __len__(self):
+            return len(self.rows)
+
+        def __eq__(self, o):
+            return [(r[0] if self.width == 1 else r) == o for r in self.rows]
+
+        __hash__ = None
+
+        def __getitem__(self, k):
+            if isinstance(k, list) and all(isinstance(x, bool) for x in k):
+                return Idx([r for r, m_ in zip(self.rows, k) if m_], self.width)
+            if isinstance(k, tuple) and len(k) == 2 and k[0] == slice(None):
+                if isinstance(k[1], int):
+                    return Idx([(r[k[1]],) for r in self.rows], 1)
+                if isinstance(k[1], slice):
+                    return Idx([r[k[1]] for r in self.rows], len(range(self.width)[k[1]]))
+            raise AnalysisError(f"index {k!r} of an index array")
+
+    class Integrals(Sym):
+        def __init__(self, name, nz, rank):
+            super().__init__(name)
+            self.nz, self.shape = nz, (4,) * rank
+
+        def __ne__(self, o):
+            return ("mask", self)
+
+        def __getitem__(self, k):
+            return (self._name, tuple(int(x) for x in k))
+
+    class Term(Sym):
+        def __init__(self, kind, idx, coeff=None):
+            super().__init__(f"{kind}{idx}")
+            self.kind, self.idx, self.coeff = kind, idx, coeff
+
+        def __mul__(self, c):
+            return Term(self.kind, self.idx, c)
+
+    class Lad(Sym):
+        def __init__(self, kind, q):
+            super().__init__(f"{kind}{q}")
+            self.kind, self.q = kind, q
+
+        def __mul__(self, o):
+            return [self, o]
+
+    def process(op, norbs=None, conserve_qn=True):
+        ops = op if isinstance(op, list) else [op]
+        return Term("".join(o.kind for o in ops), tuple(o.q for o in ops))
+    npq = OpenSym("np", make=lambda t: Blob(t), all=lambda x: True, array=lambda x, **k: x, argwhere=lambda m: Idx(m[1].nz, len(m[1].shape)),
+                  unique=lambda x: sorted({(r[0] if isinstance(r, tuple) and len(r) == 1 else r) for r in (x.rows if isinstance(x, Idx) else x)}))
+    for stacked in (False, True):
+        it = SymInterp(src, None, {"np": npq, "logger": Blob("logger"), "partial": functools.partial, "simplify_op": process,
+                                   "generate_ladder_operator": lambda n_: ([Lad("a", q) for q in range(n_)], [Lad("A", q) for q in range(n_)]),
+                                   "BasisHalfSpin": lambda *a, **k: "basis", "Op": Sym("Op", product=lambda ops: list(ops))})
+        it.max_depth = 8
+        basis, terms = it.call_function(qc, [Integrals("h1e", nz1, 2), Integrals("h2e", nz2, 4)], {"stacked": stacked, "conserve_qn": True})
+        want1 = [("Aa", t_, ("h1e", t_)) for t_ in nz1]
+        want2 = [("AAaa", t_, ("h2e", t_)) for t_ in nz2]
+        probs = []
+        if not stacked:
+            got = [(t_.kind, t_.idx, t_.coeff) for t_ in terms] if all(isinstance(t_, Term) for t_ in terms) else repr(terms)
+            if sorted(got) != sorted(want1 + want2):
+                probs.append(f"terms {got}; expected one term per non-zero integral: {want1 + want2}")
+        else:
+            groups = [[(t_.kind, t_.idx, t_.coeff) for t_ in g] for g in terms] if all(isinstance(g, list) for g in terms) else repr(terms)
+            flat = [x for g in groups for x in g] if isinstance(groups, list) else []
+            if sorted(flat) != sorted(want1 + want2):
+                probs.append(f"terms {groups}; expected one term per non-zero integral: {want1 + want2}")
+            elif any(len({x[1][0] for x in g}) != 1 for g in groups) or len({g[0][1][0] for g in groups}) != len(groups):
+                probs.append(f"stacked groups {groups} are not one group per first index p")
+        if len(basis) != 4:
+            probs.append(f"{len(basis)} basis sets for 4 spin orbitals")
+        chk.ob("qc-term-coverage", f"qc_model[{'stacked' if stacked else 'flat'} layout]: one term per non-zero integral", not probs, qc.where, probs[:2] or "4 terms, each once, with its own integral", "4 terms, each once, with its own integral",
+               line=qc.node.lineno, detail="qc_model: " + (probs[0] if probs else "") + " - an orbital that occurs only in the one-electron (or only in the two-electron) integrals must not be dropped, and no term may be counted twice")
 
 
 def jw_simplify_rule(chk, src):
@@ -75,17 +228,51 @@ def jw_simplify_rule(chk, src):
     HQC = "renormalizer/model/h_qc.py"
     fi = src.func(HQC, "simplify_op")
     hs = src.func("renormalizer/model/basis.py", "BasisHalfSpin.op_mat")
-    m2 = Mat2(hs, split=True)
+    m2 = Mat2(hs, split=True, src=src)
     try:
         mats = {"Z": m2.value("Z"), "+": m2.value("+"), "-": m2.value("-")}
     except Opaque as e:
         raise AnalysisError(f"BasisHalfSpin.op_mat: matrices of Z, +, - not foldable: {e}")
-    # the site charges used by qc_model (literal arrays under `iorb % 2 == 0`)
+    # the site charges used by qc_model: abstract run of qc_model on a two-orbital problem without integrals; the basis sets it constructs are recorded
     qm = src.func(HQC, "qc_model")
-    lits = [n for n in ast.walk(qm.node) if isinstance(n, ast.Assign) and unparse(n.targets[0]) == "sigmaqn" and "np.array([[" in unparse(n.value)]
-    if len(lits) != 2:
-        raise AnalysisError(f"{qm.where}: the two literal sigmaqn arrays were not found")
-    sig = [ast.literal_eval(unparse(n.value.args[0])) for n in lits]    # [even orbital, odd orbital]
+    import functools
+    from ..syminterp import Blob, OpenSym
+    built = []
+
+    class _Arr(Sym):
+        def __init__(self, shape):
+            super().__init__("integrals")
+            self.shape = shape
+
+        def __ne__(self, o):
+            return Blob("mask")
+
+        def __getitem__(self, k):
+            return Blob("integral")
+    npq = OpenSym("np", make=lambda t: Blob(t), all=lambda x: True, array=lambda x, **k: x, argwhere=lambda m: _Empty(), unique=lambda x: [])
+
+    class _Empty(Sym):
+        def __init__(self):
+            super().__init__("no index tuples")
+            self.size = 0
+
+        def __iter__(self):
+            return iter(())
+
+        def __getitem__(self, k):
+            return _Empty()
+
+        def __eq__(self, o):
+            return Blob("mask")
+
+        __hash__ = None
+    itq = SymInterp(src, None, {"np": npq, "logger": Blob("logger"), "partial": functools.partial, "generate_ladder_operator": lambda n_: ([], []),
+                               "BasisHalfSpin": lambda dof, sigmaqn=None, **k: built.append((dof, sigmaqn)) or ("basis", dof), "Op": Blob("Op"), "set": lambda x=(): set()})
+    itq.max_depth = 8
+    itq.call_function(qm, [_Arr((2, 2)), _Arr((2, 2, 2, 2))], {"stacked": False, "conserve_qn": True})
+    if [d for d, _ in built] != [0, 1] or not all(isinstance(q_, list) and len(q_) == 2 for _, q_ in built):
+        raise AnalysisError(f"{qm.where}: the basis sets of a two-orbital problem were not recognised: {built}")
+    sig = [[list(r) for r in q_] for _, q_ in built]    # [even orbital, odd orbital]
     made = []
 
     class OpTag(Sym):
@@ -223,11 +410,11 @@ def run(chk):
     chk.assumptions = ["BasisHalfSpin.op_mat's alias lists define which spellings denote the same spin matrix"]
     chk.rule("ofs-pair", "state-side swap => operator-side swap with the same model and JW flag (or NotImplementedError)", 3)
     chk.rule("swap-co-update", "Mpo.try_swap_site updates symbolic_out_ops_list[i+1], [i+2], model, qn[i+1] and both site tensors", 6)
-    chk.rule("jw-vocabulary", "table_row_swapped_jw recognises the spin-symbol spellings produced by generate_ladder_operator / simplify_op", 3)
+    chk.rule("jw-vocabulary", "table_row_swapped_jw recognises the spin-symbol spellings produced by generate_ladder_operator / simplify_op", 2)
     chk.rule("jw-flag", "state side and operator side read the same Jordan-Wigner flag", 2)
-    chk.rule("qc-term-coverage", "qc_model: both integral index sets feed the term list in both layouts", 4)
+    chk.rule("qc-term-coverage", "qc_model (abstract run on sparse symbolic integrals): one processed term per non-zero integral in both layouts", 2)
     chk.rule("jw-sign-parity", "Jordan-Wigner sign of an operator-side site swap over its whole (finite) input space", 2)
-    jw_sign_rule(chk, src)
+    JW_VERIFIED["symbols"] = jw_sign_rule(chk, src)
     chk.rule("jw-simplify", "Jordan-Wigner strings and their single-site normal ordering, exhaustively over short words", 3)
     jw_simplify_rule(chk, src)
     chk.rule("state-swap", "state side of an on-the-fly swap: transposition, fermionic sign, labels, decomposition results and model change together", 6)
@@ -343,34 +530,25 @@ def run(chk):
     it.call_function(ts, [me0, Sym("same order", basis=list(basis), mpos=Sym("mpos", clear=lambda: None)), False])
     chk.ob("swap-co-update", "try_swap_site[same site order]: nothing changes", me0.symbolic_out_ops_list == ["b0", "b1", "b2", "b3"] and me0.qn == ["q0", "q1", "q2", "q3"], ts.where,
            {"bond lists": me0.symbolic_out_ops_list, "labels": me0.qn}, "unchanged", line=ts.node.lineno)
-    # ---- JW vocabulary
-    groups = alias_groups(src)
-    chk.table("halfspin_alias_groups", groups)
+    # ---- JW vocabulary: the spellings the ab-initio model emits (abstract run of generate_ladder_operator) are among those the exhaustive swap run has verified
+    from ..syminterp import SymInterp, Sym
     emitted = set()
-    for qual in ("generate_ladder_operator", "simplify_op"):
-        fi = src.func(HQC, qual)
-        for n in ast.walk(fi.node):
-            if isinstance(n, ast.Call) and unparse(n.func) == "Op" and n.args and isinstance(n.args[0], ast.Constant):
-                emitted.add(n.args[0].value)
-            if isinstance(n, ast.Dict):
-                emitted |= {k.value for k in n.keys if isinstance(k, ast.Constant) and isinstance(k.value, str)}
-    tr = src.func(SYM, "table_row_swapped_jw")
-    recognised = set()
-    for (rel, q), sub in src.funcs.items():
-        if rel == SYM and (sub is tr or sub.parent is tr or (sub.parent is not None and sub.parent.parent is tr)):
-            for n in ast.walk(sub.node):
-                if isinstance(n, ast.Constant) and isinstance(n.value, str):
-                    recognised.add(n.value)
-    recognised |= {x.value for x in ast.walk(tr.node) if isinstance(x, ast.Constant) and isinstance(x.value, str)}
-    for role, canonical in (("raising/lowering sigma_+", "sigma_+"), ("raising/lowering sigma_-", "sigma_-"), ("sigma_z", "sigma_z")):
-        g = [x for x in groups if canonical in x]
-        if not g:
-            raise AnalysisError(f"BasisHalfSpin alias group of {canonical} not found")
-        used = sorted(set(g[0]) & emitted)
-        missing = [u for u in used if u not in recognised]
-        chk.ob("jw-vocabulary", f"{role}: spellings emitted by the ab-initio model are recognised by the operator swap", bool(used) and not missing, tr.where,
-               {"emitted": used, "recognised": sorted(set(g[0]) & recognised)}, "emitted subset of recognised", line=tr.node.lineno,
-               detail=f"qc_model writes {used} but table_row_swapped_jw only looks for {sorted(set(g[0]) & recognised)}: with ofs_swap_jw=True the operator gets a plain swap while the "
+
+    class _OpE(Sym):
+        def __init__(self, symbol, dofs=None, *a, **k):
+            super().__init__(symbol)
+            emitted.update(symbol.split(" "))
+    glo = src.func(HQC, "generate_ladder_operator")
+    ocl = type("OpNS", (Sym,), {"__call__": lambda self, *a, **k: _OpE(*a, **k)})("Op")
+    ocl.__dict__["product"] = lambda ops: Sym("product")
+    SymInterp(src, None, {"Op": ocl}).call_function(glo, [3])
+    chk.table("jw_symbols_emitted_by_the_model", sorted(emitted))
+    verified = JW_VERIFIED.get("symbols", set())
+    for role, members in (("ladder operators", [x for x in sorted(emitted) if x not in ("Z", "z", "sigma_z", "I")]), ("string operator sigma_z", [x for x in sorted(emitted) if x in ("Z", "z", "sigma_z")])):
+        missing = [x for x in members if x not in verified]
+        chk.ob("jw-vocabulary", f"{role}: spellings emitted by the ab-initio model are handled by the operator swap", bool(members) and not missing, glo.where,
+               {"emitted": members, "verified by the swap run": sorted(verified)}, "emitted subset of verified", line=glo.node.lineno,
+               detail=f"qc_model writes {members} but table_row_swapped_jw does not treat {missing} as Jordan-Wigner symbols: with ofs_swap_jw=True the operator gets a plain swap while the "
                       f"state gets the fermionic sign, so operator and state no longer correspond")
     # ---- flag agreement
     um = src.func(MP, "MatrixProduct._update_mps")
@@ -382,36 +560,8 @@ def run(chk):
     jw = [n for n in ast.walk(ss.node) if isinstance(n, ast.If) and unparse(n.test) in ("swap_jw", "not swap_jw")]
     remap = any("table_and_factor_swapped_jw" in unparse(n) for n in jw if unparse(n.test) == "swap_jw")
     chk.ob("jw-flag", "operator side: JW remapping of the two-site table under the flag passed by try_swap_site", remap, ss.where, [unparse(n.test) for n in jw], "if swap_jw: table_and_factor_swapped_jw(...)", line=ss.node.lineno)
-    # ---- qc_model term coverage
-    qc = src.func(HQC, "qc_model")
-    br = [n for n in qc.node.body if isinstance(n, ast.If) and "stacked" in unparse(n.test)]
-    if len(br) != 1:
-        raise AnalysisError(f"{qc.where}: `if stacked is False: ... else: ...` not found")
-    src1 = {unparse(s.targets[0]): unparse(s.value) for s in qc.node.body if isinstance(s, ast.Assign) and isinstance(s.targets[0], ast.Name)}
-    one_e = [k for k, v in src1.items() if "h1e" in v and "argwhere" in v]
-    two_e = [k for k, v in src1.items() if "h2e" in v and "argwhere" in v]
-    if len(one_e) != 1 or len(two_e) != 1:
-        raise AnalysisError(f"{qc.where}: index sets of the integral tensors not found")
-    for name, body in (("flat", br[0].body), ("stacked", br[0].orelse)):
-        loops = [n for s in body for n in ast.walk(s) if isinstance(n, ast.For)]
-        dom = set()
-        # names the loop domains depend on (transitively through local assignments of the branch)
-        local = {unparse(s.targets[0]): s.value for st in body for s in ast.walk(st) if isinstance(s, ast.Assign) and isinstance(s.targets[0], ast.Name)}
-
-        def deps(e, depth=0):
-            out = set()
-            for x in ast.walk(e):
-                if isinstance(x, ast.Name):
-                    out.add(x.id)
-                    if x.id in local and depth < 4:
-                        out |= deps(local[x.id], depth + 1)
-            return out
-        outer = [l for l in loops if not any(l is not o and any(x is l for x in ast.walk(o)) for o in loops)]
-        for l in outer:
-            dom |= deps(l.iter)
-        for which, nm in (("one-electron", one_e[0]), ("two-electron", two_e[0])):
-            chk.ob("qc-term-coverage", f"{name} layout: outer loop domain depends on the {which} index set", nm in dom, qc.where, sorted(dom & {one_e[0], two_e[0]}), nm, line=br[0].lineno,
-                   detail=f"qc_model({name}): the set of terms generated does not depend on the {which} integrals' non-zero pattern: orbitals that occur only in those integrals are dropped")
+    # ---- qc_model term coverage: abstract run on sparse symbolic integrals (orbital 2 occurs only in the one-electron, orbital 3 only in the two-electron integrals)
+    qc_terms_rule(chk, src)
 
 
 META = {
